@@ -2,6 +2,7 @@
    (sequential part: for every call sequence). *)
 From Coq Require Import List NArith ZArith Bool.
 From Feox Require Import Gen.Constants Model.Bytes Model.Lww Proofs.LwwProofs.
+From Feox Require Model.MemLimit Proofs.MemLimitProofs.
 Import ListNotations.
 Local Open Scope N_scope.
 
@@ -55,15 +56,49 @@ Theorem refused_write_changes_nothing :
   is_err (snd (step c s o e)) = true ->
   (kv (fst (step c s o e)) = kv s /\ mem (fst (step c s o e)) = mem s) \/
   (exists k delta ts ttl old, o = Incr k delta ts ttl /\ find k (kv s) = Some old /\
-     expired c old (e_tb e) (e_ta e) = Yes /\ kv (fst (step c s o e)) = remove k (kv s)).
+     expired c old (e_tb e) (e_ta e) = Yes /\ kv (fst (step c s o e)) = remove k (kv s))
+
+(* the concurrent clause: reserve_memory is a compare-exchange loop on one counter; for any number
+   of threads and any interleaving of loads, compare-exchanges, commits, drops and releases the
+   counter never exceeds the limit, and it always equals what the threads account for *).
 Proof. exact error_leaves_contents. Qed.
 Check refused_write_changes_nothing :
   forall c s o e,
   is_err (snd (step c s o e)) = true ->
   (kv (fst (step c s o e)) = kv s /\ mem (fst (step c s o e)) = mem s) \/
   (exists k delta ts ttl old, o = Incr k delta ts ttl /\ find k (kv s) = Some old /\
-     expired c old (e_tb e) (e_ta e) = Yes /\ kv (fst (step c s o e)) = remove k (kv s)).
+     expired c old (e_tb e) (e_ta e) = Yes /\ kv (fst (step c s o e)) = remove k (kv s))
+
+(* the concurrent clause: reserve_memory is a compare-exchange loop on one counter; for any number
+   of threads and any interleaving of loads, compare-exchanges, commits, drops and releases the
+   counter never exceeds the limit, and it always equals what the threads account for *).
 Print Assumptions refused_write_changes_nothing.
+
+Theorem concurrent_reservations_never_exceed_the_limit :
+  forall lim n evs,
+  let s := MemLimit.mrun (MemLimit.minit lim n) evs in
+  MemLimit.usage s <= MemLimit.limit s /\ MemLimit.limit s = lim /\
+  MemLimit.usage s = MemLimitProofs.owned_sum (MemLimit.ths s).
+Proof. exact MemLimitProofs.usage_never_exceeds_the_limit. Qed.
+Check concurrent_reservations_never_exceed_the_limit :
+  forall lim n evs,
+  let s := MemLimit.mrun (MemLimit.minit lim n) evs in
+  MemLimit.usage s <= MemLimit.limit s /\ MemLimit.limit s = lim /\
+  MemLimit.usage s = MemLimitProofs.owned_sum (MemLimit.ths s).
+Print Assumptions concurrent_reservations_never_exceed_the_limit.
+
+Theorem refused_reservation_has_no_effect :
+  forall s i cur a o,
+  nth_error (MemLimit.ths s) i = Some (MemLimit.mkmth (MemLimit.MLoaded cur a) o) -> MemLimit.limit s < cur + a ->
+  MemLimit.usage (MemLimit.mstep s (MemLimit.MCas i)) = MemLimit.usage s /\
+  MemLimitProofs.owned_sum (MemLimit.ths (MemLimit.mstep s (MemLimit.MCas i))) = MemLimitProofs.owned_sum (MemLimit.ths s).
+Proof. exact MemLimitProofs.refused_reservation_changes_nothing. Qed.
+Check refused_reservation_has_no_effect :
+  forall s i cur a o,
+  nth_error (MemLimit.ths s) i = Some (MemLimit.mkmth (MemLimit.MLoaded cur a) o) -> MemLimit.limit s < cur + a ->
+  MemLimit.usage (MemLimit.mstep s (MemLimit.MCas i)) = MemLimit.usage s /\
+  MemLimitProofs.owned_sum (MemLimit.ths (MemLimit.mstep s (MemLimit.MCas i))) = MemLimitProofs.owned_sum (MemLimit.ths s).
+Print Assumptions refused_reservation_has_no_effect.
 (* Inv unfolds to exactly the accounting equation; zero when everything is deleted *)
 Example inv_is_accounting : forall c s, Inv c s -> mem s = sum_mem c (kv s).
 Proof. intros c s [_ H]; exact H. Qed.
